@@ -326,32 +326,38 @@ def mkElem (k : OKind) (seg : List Char) : Item :=
   | .plain => .text seg
   | _ => .elem .inline seg
 
+/-- the `if i > 0:` block of `_output`'s loop: a new line starts (`first` = (`i == 0`)) -/
+def nlStep (cfg : Cfg) (first : Bool) (st : St) : Res :=
+  if first then .ok st
+  else if exceeds (st.lineno + 1) cfg.maxlines then .error (.maxlines, st)
+  else if !st.lbok then .error (.linebreak, st)
+  else .ok { st with result := st.result ++ [.newline], lineno := st.lineno + 1, charpos := 0 }
+
+/-- the segment fits: `state.charpos += segment_len; state.result.append(element)` -/
+def pushSeg (k : OKind) (seg : List Char) (st : St) : St :=
+  { st with charpos := st.charpos + seg.length, result := st.result ++ [mkElem k seg] }
+
+/-- the segment is cut: `state.result += [element, self.LINEWRAP]` (charpos is not touched) -/
+def pushWrap (k : OKind) (piece : List Char) (st : St) : St :=
+  { st with result := st.result ++ [mkElem k piece, linewrapItem] }
+
 /-- the `for i, segment in enumerate(segments)` loop of `_output`; `first` = (`i == 0`).
 The loop inserts into the list it iterates over, hence the fuel. -/
 def outSegs (cfg : Cfg) (k : OKind) : Nat → Bool → List (List Char) → St → Res
   | 0, _, _, st => .error (.fuel, st)
   | _, _, [], st => .ok st
   | fuel + 1, first, seg :: rest, st =>
-    let nl : Res :=
-      if first then .ok st
-      else if exceeds (st.lineno + 1) cfg.maxlines then .error (.maxlines, st)
-      else if !st.lbok then .error (.linebreak, st)
-      else .ok { st with result := st.result ++ [.newline], lineno := st.lineno + 1, charpos := 0 }
-    match nl with
+    match nlStep cfg first st with
     | .error e => .error e
     | .ok st =>
       match cfg.linelen with
-      | none =>
-        outSegs cfg k fuel false rest
-          { st with charpos := st.charpos + seg.length, result := st.result ++ [mkElem k seg] }
+      | none => outSegs cfg k fuel false rest (pushSeg k seg st)
       | some n =>
         if st.charpos + seg.length ≤ n || k = .link || k = .quote then
-          outSegs cfg k fuel false rest
-            { st with charpos := st.charpos + seg.length, result := st.result ++ [mkElem k seg] }
+          outSegs cfg k fuel false rest (pushSeg k seg st)
         else
-          let ab := pySplit n st.charpos seg
-          outSegs cfg k fuel false (ab.2 :: rest)
-            { st with result := st.result ++ [mkElem k ab.1, linewrapItem] }
+          outSegs cfg k fuel false ((pySplit n st.charpos seg).2 :: rest)
+            (pushWrap k (pySplit n st.charpos seg).1 st)
 
 /-- `PyvalColorizer._output(s, css_class, state, link)` -/
 def output (cfg : Cfg) (s : List Char) (k : OKind) (st : St) : Res :=
